@@ -10,6 +10,7 @@ import QrlewModel.Model.Filter
 import QrlewModel.Model.Clip
 import QrlewModel.Model.DpAgg
 import QrlewModel.Model.PupTree
+import QrlewModel.Model.RelTree
 import QrlewModel.Model.Tau
 import QrlewModel.Model.Rel
 import QrlewModel.Model.Quote
@@ -421,6 +422,81 @@ def runPup (c : Json) : Option Json := do
   let sorted := rows.toArray.qsort (fun a b => a < b)
   pure (Json.mkObj [("rows", Json.arr (sorted.map Json.str))])
 
+/-- Relation IR trees: `Qrlew.RelTree.sizeMax`, `uniq` and (unless a LIMIT / OFFSET makes the rows order-dependent) `eval` -/
+partial def relTreeOfJson? (decl : List (Nat × List Bool)) (j : Json) : Option RelTree.T := do
+  let tag ← (j.getArrVal? 0).toOption >>= fun t => t.getStr?.toOption
+  let n (i : Nat) : Option Nat := ((j.getArrVal? i).toOption >>= jInt?).map Int.toNat
+  let on (i : Nat) : Option (Option Nat) := match (j.getArrVal? i).toOption with
+    | some Json.null => some none
+    | some x => (jInt? x).map fun v => some v.toNat
+    | none => none
+  let b (i : Nat) : Option Bool := (j.getArrVal? i).toOption >>= fun x => x.getBool?.toOption
+  let t (i : Nat) : Option RelTree.T := (j.getArrVal? i).toOption >>= relTreeOfJson? decl
+  match tag with
+  | "table" => do
+      let id ← n 1
+      let d ← decl[id]?
+      pure (.table id d.1 d.2)
+  | "map" => do
+      let projJ ← (j.getArrVal? 1).toOption >>= fun a => a.getArr?.toOption
+      let proj ← projJ.toList.mapM fun p => do
+        let c ← (p.getArrVal? 0).toOption >>= jInt?
+        let f ← (p.getArrVal? 1).toOption >>= fun t => t.getStr?.toOption
+        let fn ← match f with
+          | "id" => some RelTree.Fn.id
+          | "neg" => some RelTree.Fn.neg
+          | "abs" => some RelTree.Fn.abs
+          | "plus" => ((p.getArrVal? 2).toOption >>= jInt?).map RelTree.Fn.plus
+          | _ => none
+        pure (c.toNat, fn)
+      let flt ← match (j.getArrVal? 2).toOption with
+        | some Json.null => some none
+        | some x => do
+            let c ← (x.getArrVal? 0).toOption >>= jInt?
+            let k ← (x.getArrVal? 1).toOption >>= jInt?
+            pure (some (c.toNat, k))
+        | none => none
+      pure (.map proj flt (← on 3) (← on 4) (← t 5))
+  | "join" => do pure (.join (← n 1) (← n 2) (← t 3) (← t 4))
+  | "union" => do pure (.union (← b 1) (← t 2) (← t 3))
+  | "intersect" => do pure (.intersect (← t 1) (← t 2))
+  | "except" => do pure (.except (← t 1) (← t 2))
+  | "reduce" => do
+      let keysJ ← (j.getArrVal? 1).toOption >>= fun a => a.getArr?.toOption
+      let keys ← keysJ.toList.mapM fun k => (jInt? k).map Int.toNat
+      pure (.reduce keys (← t 2))
+  | _ => none
+
+def relTreeHasLimit : RelTree.T → Bool
+  | .table _ _ _ => false
+  | .map _ _ off lim t => off.isSome || lim.isSome || relTreeHasLimit t
+  | .join _ _ l r => relTreeHasLimit l || relTreeHasLimit r
+  | .union _ l r => relTreeHasLimit l || relTreeHasLimit r
+  | .intersect l r => relTreeHasLimit l || relTreeHasLimit r
+  | .except l r => relTreeHasLimit l || relTreeHasLimit r
+  | .reduce _ t => relTreeHasLimit t
+
+def runRelTree (c : Json) : Option Json := do
+  let declJ ← (c.getObjVal? "decl").toOption >>= fun a => a.getArr?.toOption
+  let decl ← declJ.toList.mapM fun d => do
+    let n ← (d.getArrVal? 0).toOption >>= jInt?
+    let fl ← (d.getArrVal? 1).toOption >>= fun a => a.getArr?.toOption
+    let flags ← fl.toList.mapM fun x => x.getBool?.toOption
+    pure (n.toNat, flags)
+  let tree ← (c.getObjVal? "tree").toOption >>= relTreeOfJson? decl
+  let tablesJ ← (c.getObjVal? "tables").toOption >>= fun a => a.getArr?.toOption
+  let tables ← tablesJ.toList.mapM fun tb => do
+    let rowsJ ← tb.getArr?.toOption
+    rowsJ.toList.mapM fun r => do
+      let cs ← r.getArr?.toOption
+      cs.toList.mapM jInt?
+  let db : Nat → List RelTree.Row := fun i => tables.getD i []
+  let rows := (RelTree.eval db tree).map fun r => "|".intercalate (r.map toString)
+  let sorted := rows.toArray.qsort (fun a b => a < b)
+  pure (Json.mkObj [("size_max", Json.num (JsonNumber.fromNat (RelTree.sizeMax tree))),
+    ("uniq", Json.arr ((RelTree.uniq tree).map Json.bool).toArray),
+    ("rows", if relTreeHasLimit tree then Json.null else Json.arr (sorted.map Json.str))])
+
 def runLimit (c : Json) : Option Json := do
   let k ← (c.getObjVal? "k").toOption >>= jInt?
   let nU ← (c.getObjVal? "n_units").toOption >>= jInt?
@@ -603,6 +679,7 @@ def handle (line : String) : Json :=
       | "clip" => runClip c ((j.getObjVal? "aux").toOption.getD Json.null)
       | "dpagg" => runDpAgg c ((j.getObjVal? "aux").toOption.getD Json.null)
       | "pup" => runPup c
+      | "reltree" => runRelTree c
       | "dpevent" => runDpEvent c
       | "dpquery" => runDpQuery ((j.getObjVal? "aux").toOption.getD Json.null)
       | "rules" => runRules ((j.getObjVal? "aux").toOption.getD Json.null)
